@@ -288,6 +288,18 @@ def boundary_programs(buckets, rnd=0):
     yield ("find_bucket", [f'b = find_bucket("{b1[:1]}")', "e = query_bucket(b)", "n = query_bucket_eventcount(b)",
                            'e = chunk_events_by_key(e, "app")', 'RETURN = {"events": e, "n": n}'], None, None)
     yield ("find_bucket-host", [f'b = find_bucket("b", "host0")', "RETURN = query_bucket(b)"], None, None)
+    # the program assigns the window itself between reads of the same bucket: each read is over the window in force
+    s1, x1 = rebind("ENDTIME", BASE + 2_000_000 + 999 * (rnd % 2), 0)
+    s2, x2 = rebind("STARTTIME", BASE + 1_000_000 + 500, 60)
+    s3, x3 = rebind("ENDTIME", BASE + 40_000_000, 345)
+    yield ("rebind-window",
+           [f'e1 = query_bucket("{b1}")', f'n1 = query_bucket_eventcount("{b1}")', f"t = categorize(e1, {RULES})", s1,
+            f'e2 = query_bucket("{b1}")', f'n2 = query_bucket_eventcount("{b1}")', f"u = tag(e2, {TAGS})", s2,
+            f'e3 = query_bucket("{b1}")', f'n3 = query_bucket_eventcount("{b1}")', s3,
+            f'e4 = query_bucket("{b1}")', f'n4 = query_bucket_eventcount("{b1}")', f'o4 = query_bucket("{b2}")',
+            'RETURN = {"n1": n1, "n2": n2, "e3": e3, "n3": n3, "e4": e4, "n4": n4, "o4": o4, "t": t, "u": u}'], None,
+           {"n1": ("count", b1), "n2": ("count", b1, (None, x1)), "e3": ("events", b1, (x2, x1)), "n3": ("count", b1, (x2, x1)),
+            "e4": ("events", b1, (x2, x3)), "n4": ("count", b1, (x2, x3)), "o4": ("events", b2, (x2, x3))})
     yield ("empty", ["RETURN = 1"], None, None)
 
 
@@ -299,6 +311,7 @@ def random_program(rng, buckets):
     pristine = {}          # variable -> ("events" | "count", bucket): assigned by a read, given to nothing since
     read_buckets = []
     counter = [0]
+    win = [None, None]     # the window the program assigned itself (None = the query's own instant)
 
     def read():
         counter[0] += 1
@@ -307,11 +320,11 @@ def random_program(rng, buckets):
             v = f"e{counter[0]}"
             stmts.append(f'{v} = query_bucket("{b}")')
             vars_.append(v)
-            pristine[v] = ("events", b)
+            pristine[v] = ("events", b, tuple(win))
         else:
             v = f"n{counter[0]}"
             stmts.append(f'{v} = query_bucket_eventcount("{b}")')
-            pristine[v] = ("count", b)
+            pristine[v] = ("count", b, tuple(win))
         read_buckets.append(b)
 
     for i in range(rng.randrange(1, 3)):
@@ -326,6 +339,14 @@ def random_program(rng, buckets):
         read()
     for _ in range(rng.randrange(1, 7)):
         if rng.random() < 0.3:
+            read()
+            continue
+        if rng.random() < 0.1:
+            i = rng.randrange(2)
+            stmt, x = rebind(["STARTTIME", "ENDTIME"][i], BASE + rng.choice([-2, 0, 1, 3, 10, 40]) * 1_000_000 + rng.choice([0, 1, 999, 1000]),
+                             rng.choice([0, 60, -300, 345]))
+            stmts.append(stmt)
+            win[i] = x
             read()
             continue
         name, mk = rng.choice(MUTATING)
@@ -403,6 +424,16 @@ def aware(us, off_min):
     return dt(us).astimezone(timezone(timedelta(minutes=off_min)))
 
 
+REBOUND = {}          # isoformat string the generator wrote into a program -> the datetime it stands for
+
+
+def rebind(var, us, off_min):
+    """the statement `STARTTIME = "<isoformat>"` / `ENDTIME = ...` and the datetime it stands for"""
+    x = aware(us, off_min)
+    REBOUND[x.isoformat()] = x
+    return f'{var} = "{x.isoformat()}"', x
+
+
 # ---------------------------------------------------------------------------
 # one back end (runs in this process for memory/sqlite, in a child process for peewee)
 
@@ -441,17 +472,35 @@ def run_backend(backend, tier, seed, repo, have_driver=True):
         finally:
             w.spy_on = on
 
-    def direct_read(bucket):
-        """the direct windowed read over the window of the running query, through a fresh Datastore facade"""
+    def window_in_force(namespace, window):
+        """the (start, end) datetimes a read is over: the query's own, unless the program assigned STARTTIME / ENDTIME
+        (the generator wrote those strings itself from datetimes it keeps in REBOUND: nothing is parsed here)"""
+        st, en = cur["st"], cur["en"]
+        if window is not None:
+            return (window[0] or st), (window[1] or en)
+        if namespace is not None:
+            s1, s2 = namespace.get("STARTTIME"), namespace.get("ENDTIME")
+            if s1 != st.isoformat():
+                st = REBOUND.get(s1, st)
+            if s2 != en.isoformat():
+                en = REBOUND.get(s2, en)
+        return st, en
+
+    def direct_read(bucket, namespace=None, window=None):
+        """the direct windowed read over the window in force, through a fresh Datastore facade"""
+        st, en = window_in_force(namespace, window)
+        label = [st.isoformat(), en.isoformat()]
+
         def f():
             bk = Datastore(lambda testing=False, **kw: cur["storage"])[bucket]
-            return (ev_rows(bk.get(starttime=cur["st"], endtime=cur["en"])), bk.get_eventcount(starttime=cur["st"], endtime=cur["en"]))
-        # one direct read per bucket while the query runs (at the first hand-out) and one after it has ended; that the
-        # store is the same throughout is what the dumps before/after decide
+            return (ev_rows(bk.get(starttime=st, endtime=en)), bk.get_eventcount(starttime=st, endtime=en), label)
+        # one direct read per bucket and window while the query runs (at the first hand-out) and one after it has ended;
+        # that the store is the same throughout is what the dumps before/after decide
         memo = cur["direct_memo"]
-        if bucket not in memo:
-            memo[bucket] = quiet(f)
-        return memo[bucket]
+        key = (bucket, label[0], label[1])
+        if key not in memo:
+            memo[key] = quiet(f)
+        return memo[key]
 
     probe = reads.ReadProbe(qfunctions.functions, Event, direct_read,
                             (lambda: cur["world"].spy_calls if cur.get("world") is not None else []))
@@ -504,6 +553,15 @@ def run_backend(backend, tier, seed, repo, have_driver=True):
         seen_b = [c.get("bucket") for c in calls if "error" not in c and c["fn"] == "query_bucket"]
         rereads = len(seen_b) - len(set(seen_b))
         count("re-reads-of-a-bucket-within-a-query", rereads)
+        # programs that assign STARTTIME / ENDTIME: each read is compared over the window in force at the call; how often
+        # that differs from the read over the instants the query was started with is recorded (see notes, Round 2)
+        own_label = [st.isoformat(), en.isoformat()]
+        for c in calls:
+            if "error" not in c and c.get("window") not in (None, own_label) and c.get("bucket") is not None:
+                count("reads-over-a-window-the-program-assigned")
+                o = direct_read(c["bucket"])
+                if c["handed_out"] != (o[0] if c["fn"] == "query_bucket" else o[1]):
+                    count("reads-over-a-window-the-program-assigned:differ-from-the-read-over-the-query's-own-instants")
         if status == "ok" and spec:
             bad += reads.check_returned(res, spec, direct_read, calls)
             count("untouched-reads-returned", len(spec))
